@@ -118,6 +118,12 @@ def precision_jobs(ctx):
                 for emit_step in ((1, 0.5) if (not ctx.quick or prec == 1)
                                   else (1,)):
                     jobs.append(('P', prec, combo, sc, emit_step))
+                if len(combo) == 1:
+                    # a top-level emitted variable that is NAMED 'time'
+                    # (a clock port wired to ('time',)) accumulates the
+                    # timesteps in floating point: the rows are still
+                    # stamped with the engine's clock
+                    jobs.append(('P', prec, combo, sc, 1, 'timevar'))
     return jobs
 
 
@@ -135,12 +141,16 @@ def run_special(job, acc):
 
 
 def precision_world(job):
-    _, prec, combo, script, emit_step = job
+    _, prec, combo, script, emit_step = job[:5]
     procs, topo = {}, {}
     for i, ts in enumerate(combo):
         pid = f'p{i}'
         procs[pid] = sched.probe_spec(pid, float(ts), 'always')
         topo[pid] = {'priv': (f's{i}',), 'shared': ('shared',)}
+        if len(job) > 5 and job[5] == 'timevar' and i == 0:
+            procs[pid]['schema']['tv'] = dict(sched.NUM)
+            procs[pid]['update']['tv'] = '$ts'
+            topo[pid]['tv'] = ('time',)
     sc = [(c[0], float(c[1])) + tuple(c[2:]) for c in script]
     return {'processes': procs, 'topology': topo, 'script': sc,
             'engine': {'global_time_precision': prec,
@@ -176,7 +186,7 @@ def exact_timeline(combo, script):
 
 def run_precision(job, acc):
     spec = precision_world(job)
-    _, prec, combo, script, emit_step = job
+    _, prec, combo, script, emit_step = job[:5]
     ex = worlds.execute(spec, guard_factory=sched.lasso_guard)
     p = sched.Parsed(ex)
     sched.record_states(acc, p)
@@ -308,3 +318,7 @@ def replay(case):
     else:
         afamily.replay(case, acc, MONITORS)
     return [v for exs in acc.viol_examples.values() for v in exs]
+
+
+RULE += (
+    " Precision worlds also with a top-level emitted variable NAMED 'time' that accumulates the timesteps in floating point: rows stay stamped with the engine's clock. K1 is recognised only when the lagging process was asked again in the very next scheduler pass.")
